@@ -335,6 +335,17 @@ pub fn install_death_note(prop: &str, file: Option<String>) {
 // optional per-call log (trace command only)
 
 static LOG_CALLS: AtomicBool = AtomicBool::new(false);
+
+thread_local! {
+    static PEEK_EVERY_CALL: std::cell::Cell<bool> = const { std::cell::Cell::new(false) };
+}
+/// C17 only: the pump asks the length queries before every converter call.
+pub fn set_peek_every_call(on: bool) {
+    PEEK_EVERY_CALL.with(|c| c.set(on));
+}
+pub fn peek_every_call() -> bool {
+    PEEK_EVERY_CALL.with(|c| c.get())
+}
 thread_local! {
     static CALL_LOG: RefCell<Vec<String>> = const { RefCell::new(Vec::new()) };
 }
